@@ -48,12 +48,17 @@ type Resp struct {
 	// client timeout fires (a net.Error with Timeout() and Temporary() true, returned by every further read,
 	// as net/http and net.Conn do); "eof" = unexpected EOF
 	CutErr string `json:"cut_err,omitempty"`
+	// StallMs: before it breaks, the transfer is silent for that long (virtual time): the read that meets the end of
+	// the delivered bytes blocks that long
+	StallMs int `json:"stall_ms,omitempty"`
 	// Gzip: the response is gzip-encoded and larger than the decoder's read-ahead. The WARC client hands
 	// Zeno a decoding reader whose Close does not close the connection underneath (gzip.Reader.Close never
 	// does): only reading to EOF lets the connection, its recorder and the feedback signal complete.
 	Gzip bool `json:"gzip,omitempty"`
 	// DelayMs: the server takes that long (virtual time) before it answers
 	DelayMs int `json:"delay_ms,omitempty"`
+	// NoLength: the response carries no Content-Length (chunked or close-delimited): http.Response.ContentLength is -1
+	NoLength bool `json:"no_length,omitempty"`
 }
 
 // Page is the behaviour of one URL: Script[i] answers attempt i, the last entry repeats.
@@ -114,6 +119,7 @@ type Options struct {
 	AsyncWARC            bool     // --async-warc-write: no feedback channel
 	SlowWrites           bool     // every WARC write may (as an environment deviation, cost F) take 5 virtual minutes
 	DomainsCrawlPatterns []string // --domains-crawl
+	SlowSourceMs         int      // the source takes that long (virtual time) over every finished seed it is handed
 }
 
 // World is the per-execution state.
@@ -135,6 +141,9 @@ type World struct {
 	FinishCh, ProduceCh                  chan *models.Item
 	sinkQuit                             chan struct{}
 	sinkWG                               sync.WaitGroup
+
+	// TrackedAtStop: seeds still in the reactor's state table when the stop sequence reached reactor.Stop()
+	TrackedAtStop int
 
 	// FinisherGate (set before Start): the finisher stage is started by a thread of its own once the gate holds
 	FinisherGate func() bool
@@ -190,7 +199,7 @@ func New(opt Options, site Site) *World {
 		WARCDiscardStatus: opt.DiscardStatus, DisableLocalDedupe: opt.DisableLocalDedupe,
 		DomainsCrawl:     opt.DomainsCrawlPatterns,
 		WARCTempDir:      w.seenDir + "/temp",
-		HTTPReadDeadline: int(60 * time.Second),
+		HTTPReadDeadline: 60, // the CLI default (seconds)
 	}
 	if opt.DiscardStatus == nil {
 		cfg.WARCDiscardStatus = []int{429}
@@ -265,6 +274,7 @@ func (w *World) Stop() {
 	w.Feeders.Wait()
 	close(w.sinkQuit)
 	w.sinkWG.Wait()
+	w.TrackedAtStop = reactor.VerifTracked() // what the source would hand back to its queue
 	reactor.Stop()
 }
 
@@ -307,6 +317,10 @@ func (w *World) sink() {
 			select {
 			case w.finishSignal() <- struct{}{}:
 			default:
+			}
+			if w.Opt.SlowSourceMs > 0 {
+				// a slow source: its finish receiver is busy with this seed (a DELETE on crawl HQ, a database write)
+				time.Sleep(time.Duration(w.Opt.SlowSourceMs) * time.Millisecond)
 			}
 		case it := <-w.ProduceCh:
 			w.record(&w.Produced, it)
@@ -425,6 +439,9 @@ func (t *transport) RoundTrip(req *http.Request) (*http.Response, error) {
 		Proto: "HTTP/1.1", ProtoMajor: 1, ProtoMinor: 1, Header: h, Request: req,
 		ContentLength: int64(len(r.Body)),
 	}
+	if r.NoLength {
+		resp.ContentLength, resp.TransferEncoding = -1, []string{"chunked"}
+	}
 	discarded, _ := false, ""
 	if w.client.DiscardHook != nil {
 		discarded, _ = w.client.DiscardHook(resp)
@@ -442,7 +459,7 @@ func (t *transport) RoundTrip(req *http.Request) (*http.Response, error) {
 	w.mu.Unlock()
 	var rd io.Reader = strings.NewReader(r.Body)
 	if r.CutAt > 0 {
-		rd = &cutReader{r: rd, left: r.CutAt, kind: r.CutErr, url: f.URL}
+		rd = &cutReader{r: rd, left: r.CutAt, kind: r.CutErr, url: f.URL, stallMs: r.StallMs}
 	}
 	resp.Body = &body{r: rd, w: w, f: f, fb: fb, gzip: r.Gzip}
 	return resp, nil
@@ -450,11 +467,12 @@ func (t *transport) RoundTrip(req *http.Request) (*http.Response, error) {
 
 // cutReader delivers `left` bytes and then fails for good: every further read returns the same error.
 type cutReader struct {
-	r     io.Reader
-	left  int
-	kind  string
-	url   string
-	after int // reads after the failure
+	r       io.Reader
+	left    int
+	kind    string
+	url     string
+	after   int // reads after the failure
+	stallMs int
 }
 
 // timeoutError is what a fired read deadline or client timeout looks like to the reader of a body.
@@ -466,6 +484,9 @@ func (timeoutError) Temporary() bool { return true }
 
 func (c *cutReader) Read(p []byte) (int, error) {
 	if c.left <= 0 {
+		if c.after == 0 && c.stallMs > 0 {
+			time.Sleep(time.Duration(c.stallMs) * time.Millisecond) // the server has gone silent
+		}
 		c.after++
 		if c.after > 100 {
 			// a reader that keeps asking a dead connection never ends (and never yields to the scheduler): livelock
